@@ -140,6 +140,7 @@ def run(ctx, rep):
     check_modexp(fx, rep)
     check_blake2_layout(fx, rep)
     check_blake2_algo(fx, rep)
+    check_layouts(fx, rep)
     check_mapping(ctx.facts('default'), rep)
     rep.assume('the linked libraries compute the functions their EIPs name; inputs longer than 2^32 bytes are not considered in the formula grids')
 
@@ -1043,3 +1044,111 @@ def check_mapping(fx, rep):
         rep.violation('R5-result-mapping', 'call_precompile', 'call_precompile: ' + sorted(set(problems))[0], f.where())
     else:
         rep.ok('R5-result-mapping', 'call_precompile', 'Ok/record -> Return, record fails or OutOfGas -> PrecompileOOG, other -> PrecompileError, fatal -> Err')
+
+
+# ------------------------------------------------------------------ R8
+
+LAYOUT_PADS = {'right_pad', 'left_pad', 'right_pad_with_offset', 'right_pad_vec', 'left_pad_vec', 'right_pad_with_offset_vec', 'as_array'}
+
+
+def check_layouts(fx, rep):
+    """R8: the constant byte windows each precompile uses are the ones its EIP lays out (reference
+    table LAYOUTS, written from the EIPs).  A window that is not in the layout, or a layout field that
+    is no longer read, is reported; a function that is gone is undecided (fail closed)."""
+    n = 0
+    for name, want in sorted(REF.LAYOUTS.items()):
+        f = fx.fns.get(P + name)
+        if f is None:
+            rep.undecided('R8-layout', name, 'function not found')
+            continue
+        rep.fn(f)
+        got = layout_inventory(fx, f)
+        n += 1
+        extra = [x for x in got if x not in want]
+        missing = [x for x in want if x not in got]
+        if extra or missing:
+            rep.violation('R8-layout', name, '%s: byte windows %s are not in the EIP layout / layout fields %s are not read' % (name, extra, missing), f.where())
+        else:
+            rep.ok('R8-layout', name, '%d layout constants' % len(want))
+    rep.floor('R8-layout-functions', n, 20)
+
+
+def layout_inventory(fx, f):
+    """constant byte windows a function uses: slice ranges with constant bounds, constant element
+    indices (read `at`, written `at=`), switches on a constant-indexed byte with their arm values,
+    and constant generic arguments of calls (right_pad::<128>)."""
+    from cfg import Origins
+    og = Origins(f, fx)
+
+    def consts(oo):
+        out = []
+        for o in oo:
+            if o.root[0] == 'const' and o.root[1] is not None and not o.path:
+                out.append(int(o.root[1]))
+            else:
+                return None
+        return out
+
+    def one(oo):
+        c = consts(oo)
+        return c[0] if c and len(set(c)) == 1 else '?'
+    out = set()
+    for bi, t in f.calls():
+        short = (t.callee or '').split('::')[-1]
+        if short in ('index', 'index_mut', 'get', 'get_mut', 'get_unchecked', 'split_at', 'split_at_mut') and len(t.args) >= 2:
+            for o in og.of_operand(t.args[1]):
+                if o.root[0] == 'agg' and 'range::Range' in o.root[1]:
+                    b = tuple(one(list(x)) for x in o.root[4])
+                    if '?' not in b:
+                        out.add((o.root[1].split('::')[-1],) + b)
+                elif short.startswith('split_at') and o.root[0] == 'const' and o.root[1] is not None:
+                    out.add(('split_at', int(o.root[1])))
+        if short in LAYOUT_PADS:
+            for ca in t.cargs():
+                ca = str(ca)
+                if ca.startswith('const ') and ca[6:].strip().isdigit():
+                    out.add(('pad', short, int(ca[6:])))
+            if 'offset' in short and len(t.args) >= 2:
+                c = one(og.of_operand(t.args[1]))
+                if c != '?':
+                    out.add(('offset', short, c))
+    for b in f.blocks:
+        if b.cleanup:
+            continue
+        for s in b.stmts:
+            if s.kind != 'assign' or s.rv is None:
+                continue
+            for op in (s.rv.ops or []):
+                if op.place is not None:
+                    for p in op.place.pr:
+                        if p.startswith('[_'):
+                            c = one(og.of_local(int(p[2:-1]), 12))
+                            if c != '?':
+                                out.add(('at', c))
+            for p in s.place.pr:
+                if p.startswith('[_'):
+                    c = one(og.of_local(int(p[2:-1]), 12))
+                    if c != '?':
+                        out.add(('at=', c))
+            # arithmetic of a constant-indexed byte with a constant (v - 27)
+            if s.rv.rv == 'bin' and len(s.rv.ops or []) == 2:
+                a, b_ = s.rv.ops
+                if a.place is not None and b_.kind == 'const':
+                    idxs = set()
+                    for o in og.of_operand(a):
+                        for p in o.path:
+                            if p.startswith('[_'):
+                                idxs.add(one(og.of_local(int(p[2:-1]), 12)))
+                    idx = idxs.pop() if len(idxs) == 1 else '?'
+                    kc = one(og.of_operand(b_))
+                    if idx != '?' and kc != '?':
+                        out.add(('bin', (s.rv.d.get('op') or '').replace('WithOverflow', ''), idx, kc))
+        if b.term.kind == 'switch':
+            d = b.term.d.get('d', {})
+            pl = d.get('c') or d.get('m')
+            if pl and any(p.startswith('[_') for p in pl.get('pr', [])):
+                p = [p for p in pl['pr'] if p.startswith('[_')][0]
+                c = one(og.of_local(int(p[2:-1]), 12))
+                if c != '?':
+                    out.add(('switch-at', c, tuple(sorted(a[0] for a in b.term.d.get('arms', [])))))
+    return sorted(out, key=str)
